@@ -332,6 +332,23 @@ def register(reg):
             return z3.If(t == none_val, float_inf, t)
         return t
 
+    def _with_attrs(c, method_name):
+        """attribute names X for which the sibling method `method_name` of the class under verification contains `with self.X`"""
+        import ast as _ast
+        fi = c.fi
+        out = set()
+        mod = c.eng.repo.modules.get(fi.module)
+        sib = mod.funcs.get(f"{fi.cls}.{method_name}") if mod is not None and fi.cls else None
+        if sib is None:
+            return out
+        for n in _ast.walk(sib.node):
+            if isinstance(n, (_ast.With, _ast.AsyncWith)):
+                for item in n.items:
+                    e = item.context_expr
+                    if isinstance(e, _ast.Attribute) and isinstance(e.value, _ast.Name) and e.value.id == "self":
+                        out.add(e.attr)
+        return out
+
     # ================================================================== stream methods
     def stream_contract(cls, short, field, kind, method, op_events, raises, props=("C16", "C15"), params=None, closes_on_failure=False):
         @reg.contract
@@ -354,7 +371,12 @@ def register(reg):
                     if method in ("read", "write"):
                         # the reader of an HTTP/2 connection parks in the runtime read while other streams' threads / tasks
                         # write on the same stream object: nothing may be held across the blocking call (seed C12-w4-1)
-                        out.append(("nothing_is_held_across_the_blocking_runtime_call", ("C12", "C13", "C08", "C18"), len(ev.data.get("held_locks", [])) == 0))
+                        # (a lock of its own per direction would be harmless: what is refused is something held here that the
+                        # OTHER direction's method also takes - decided on the attribute names in the `with` statements of both)
+                        held = [h for h in ev.data.get("held_locks", [])]
+                        other = "write" if method == "read" else "read"
+                        shared = [h for h in held if h.rsplit(".", 1)[-1] in _with_attrs(c, other) or not h.startswith("opaque:attr!")]
+                        out.append(("nothing_the_other_direction_needs_is_held_across_the_blocking_runtime_call", ("C12", "C13", "C08", "C18"), len(shared) == 0))
                     if "obj" in ev.data or "sock" in ev.data:
                         o = ev.data.get("obj") or ev.data.get("sock")
                         out.append(("operates_on_own_runtime_stream", ("C02", "C03"), o.t == F(c, c.self, f"{short}.{field}")))
